@@ -384,6 +384,9 @@ struct CliCase {
     /// calls again: what it advertises must follow
     then_accept: Vec<Enc>,
     then_via_clone: bool,
+    /// before the judged call, the same client makes a call that the peer refuses with
+    /// UNIMPLEMENTED and this grpc-accept-encoding value: the client's own configuration must not change
+    refused_first: Option<&'static str>,
 }
 
 #[derive(Clone)]
@@ -392,6 +395,8 @@ struct Canned {
     resp_headers: HeaderMap,
     resp_body: Vec<u8>,
     headers_only: bool,
+    /// the first request is answered with this headers-only response instead
+    first_response: Option<HeaderMap>,
     ch: Chooser,
 }
 
@@ -407,11 +412,17 @@ impl Service<http::Request<tonic::body::Body>> for Canned {
         Box::pin(async move {
             let (parts, body) = req.into_parts();
             let c = collect_body(body, 100_000);
-            {
+            let nth = {
                 let mut cap = this.capture.lock().unwrap();
                 cap.calls += 1;
                 cap.req_headers = parts.headers.clone();
                 cap.req_body = c;
+                cap.calls
+            };
+            if let (1, Some(h)) = (nth, &this.first_response) {
+                let mut r = http::Response::new(ScriptBody::new(Vec::<u8>::new(), None, Chunking::Fixed(vec![]), &this.ch).with_exact_size());
+                *r.headers_mut() = h.clone();
+                return Ok(r);
             }
             let mut t = HeaderMap::new();
             t.insert("grpc-status", HeaderValue::from_static("0"));
@@ -444,7 +455,16 @@ fn cli_body(c: &CliCase, ch: &Chooser) -> Outcome {
     if let Some(code) = c.headers_only {
         h.insert("grpc-status", HeaderValue::from_str(&code.to_string()).unwrap());
     }
-    let svc = Canned { capture: capture.clone(), resp_headers: h, resp_body: wire::encode_frame(c.resp_flag, &payload), headers_only: c.headers_only.is_some(), ch: ch.clone() };
+    let svc = Canned { capture: capture.clone(), resp_headers: h, resp_body: wire::encode_frame(c.resp_flag, &payload), headers_only: c.headers_only.is_some(), first_response: c.refused_first.map(|gae| {
+        let mut h = HeaderMap::new();
+        h.insert("content-type", HeaderValue::from_static("application/grpc"));
+        h.insert("grpc-status", HeaderValue::from_static("12"));
+        h.insert("grpc-message", HeaderValue::from_static("unsupported%20encoding"));
+        if !gae.is_empty() {
+            h.insert("grpc-accept-encoding", HeaderValue::from_static(gae));
+        }
+        h
+    }), ch: ch.clone() };
     let mut client = EchoClient::new(svc);
     if let Some(e) = c.send {
         client = client.send_compressed(tonic_enc(e));
@@ -453,6 +473,14 @@ fn cli_body(c: &CliCase, ch: &Chooser) -> Outcome {
         client = client.accept_compressed(tonic_enc(*e));
     }
     let req_msgs = if c.shape.streams_requests() { vec![REQ_MSG.to_vec(), vec![]] } else { vec![REQ_MSG.to_vec()] };
+    if c.refused_first.is_some() {
+        // the refused call; what it returns is the peer's business
+        if spin_block_on(client_call(&mut client, c.shape, req_msgs.clone(), &vec![], false, ch, |_| {}), 100_000).is_err() {
+            let mut o = Outcome::new("STALLED");
+            o.violate("stall", "the refused first call did not complete");
+            return o;
+        }
+    }
     let view = match spin_block_on(client_call(&mut client, c.shape, req_msgs.clone(), &vec![], false, ch, |_| {}), 100_000) {
         Ok(v) => v,
         Err(_) => {
@@ -567,7 +595,7 @@ fn cli_body(c: &CliCase, ch: &Chooser) -> Outcome {
         want.sort();
         want.dedup();
         o.obs.push_str(&format!(" | second call advertises {:?}", got));
-        if cap.calls != 2 {
+        if cap.calls != 2 + c.refused_first.is_some() as u32 {
             o.violate("client-second-call-missing", format!("{} requests were sent for two calls", cap.calls));
         } else if got != want {
             o.violate("client-advertises-wrong-set", format!("after enabling {{{}}} on top of {{{}}} (on {}), the next request carries grpc-accept-encoding {:?}", names(&c.then_accept), names(&c.accept), if c.then_via_clone { "a clone" } else { "the same client" }, gae.iter().map(|v| String::from_utf8_lossy(v).to_string()).collect::<Vec<_>>()));
@@ -601,13 +629,22 @@ fn cli_cases(_tier: Tier) -> Vec<CliCase> {
             for (re, flag, comp, empty) in &resp {
                 n += 1;
                 let shape = Shape::ALL[n % 4];
-                out.push(CliCase { shape, send, accept: accept.clone(), resp_encoding: re.clone(), resp_flag: *flag, resp_comp: *comp, resp_empty: *empty, headers_only: None, then_accept: vec![], then_via_clone: false });
+                out.push(CliCase { shape, send, accept: accept.clone(), resp_encoding: re.clone(), resp_flag: *flag, resp_comp: *comp, resp_empty: *empty, headers_only: None, then_accept: vec![], then_via_clone: false, refused_first: None });
                 // the same announcement on a headers-only response (status in the headers, no body)
                 if re.is_some() && *flag == 0 {
                     for code in [0u8, 5] {
-                        out.push(CliCase { shape, send, accept: accept.clone(), resp_encoding: re.clone(), resp_flag: 0, resp_comp: None, resp_empty: true, headers_only: Some(code), then_accept: vec![], then_via_clone: false });
+                        out.push(CliCase { shape, send, accept: accept.clone(), resp_encoding: re.clone(), resp_flag: 0, resp_comp: None, resp_empty: true, headers_only: Some(code), then_accept: vec![], then_via_clone: false, refused_first: None });
                     }
                 }
+            }
+        }
+    }
+    // a refusal by the peer must not reconfigure the client: the next call is made as configured
+    for send in [Some(Enc::Gzip), Some(Enc::Deflate), Some(Enc::Zstd), None] {
+        for accept in [vec![], vec![Enc::Gzip], vec![Enc::Zstd, Enc::Deflate]] {
+            for gae in ["", "identity", "gzip", "deflate,zstd", "identity,br"] {
+                n += 1;
+                out.push(CliCase { shape: Shape::ALL[n % 4], send, accept: accept.clone(), resp_encoding: None, resp_flag: 0, resp_comp: None, resp_empty: false, headers_only: None, then_accept: vec![], then_via_clone: false, refused_first: Some(gae) });
             }
         }
     }
@@ -616,7 +653,7 @@ fn cli_cases(_tier: Tier) -> Vec<CliCase> {
         for extra in [vec![Enc::Gzip], vec![Enc::Zstd, Enc::Deflate]] {
             for via_clone in [false, true] {
                 n += 1;
-                out.push(CliCase { shape: Shape::ALL[n % 4], send: None, accept: accept.clone(), resp_encoding: None, resp_flag: 0, resp_comp: None, resp_empty: false, headers_only: None, then_accept: extra.clone(), then_via_clone: via_clone });
+                out.push(CliCase { shape: Shape::ALL[n % 4], send: None, accept: accept.clone(), resp_encoding: None, resp_flag: 0, resp_comp: None, resp_empty: false, headers_only: None, then_accept: extra.clone(), then_via_clone: via_clone, refused_first: None });
             }
         }
     }
@@ -636,9 +673,9 @@ pub fn property(tier: Tier) -> Property {
     let cli = Section::new(
         "client",
         Config::default(),
-        "cases: generated client with send_compressed in {none, each} x every ordered accept subset (16) x scripted response (grpc-encoding absent/identity/gzip/deflate/zstd/GZIP/br/obs-text; flag 0/1; payload compressed or not; also as a headers-only response carrying grpc-status 0 / 5 in its headers) with a rotating call shape, plus two-call sequences in which the client, or a clone of it, enables further encodings between the calls; oracle: request grpc-encoding == configured (absent if none) and frames flagged/compressed accordingly, grpc-accept-encoding token set == accept set (+identity) and absent when empty, a response encoding that is not enabled => UNIMPLEMENTED, flag 1 without encoding => INTERNAL, well-formed responses are delivered. Non-trivial = any encoding configured or announced.",
+        "cases: generated client with send_compressed in {none, each} x every ordered accept subset (16) x scripted response (grpc-encoding absent/identity/gzip/deflate/zstd/GZIP/br/obs-text; flag 0/1; payload compressed or not; also as a headers-only response carrying grpc-status 0 / 5 in its headers) with a rotating call shape, plus two-call sequences in which the client, or a clone of it, enables further encodings between the calls, or in which the peer refuses a first call with UNIMPLEMENTED and a grpc-accept-encoding of its own (the next call must still be made exactly as configured); oracle: request grpc-encoding == configured (absent if none) and frames flagged/compressed accordingly, grpc-accept-encoding token set == accept set (+identity) and absent when empty, a response encoding that is not enabled => UNIMPLEMENTED, flag 1 without encoding => INTERNAL, well-formed responses are delivered. Non-trivial = any encoding configured or announced.",
         cli_cases(tier),
-        |c: &CliCase| format!("{:?} send={:?} accept={{{}}} resp-encoding={:?} flag={} comp={:?} headers_only={:?} then_accept={{{}}} via_clone={}", c.shape, c.send.map(|e| e.name()), names(&c.accept), c.resp_encoding.as_ref().map(|v| String::from_utf8_lossy(v).to_string()), c.resp_flag, c.resp_comp.map(|e| e.name()), c.headers_only, names(&c.then_accept), c.then_via_clone),
+        |c: &CliCase| format!("{:?} send={:?} accept={{{}}} resp-encoding={:?} flag={} comp={:?} headers_only={:?} then_accept={{{}}} via_clone={} refused_first={:?}", c.shape, c.send.map(|e| e.name()), names(&c.accept), c.resp_encoding.as_ref().map(|v| String::from_utf8_lossy(v).to_string()), c.resp_flag, c.resp_comp.map(|e| e.name()), c.headers_only, names(&c.then_accept), c.then_via_clone, c.refused_first),
         cli_body,
     )
     .mins(500, 20, 200);
